@@ -62,6 +62,17 @@ pub struct DynInfo
     pub at: Where,
     /// Total number of actor runs so far.
     pub runs_so_far: u32,
+    /// Actors whose creating command has been applied (bit i). Ops may only name these: using an entity id
+    /// reserved by `Commands::spawn` before the spawn command is applied is a Bevy usage error, not a cobweb one.
+    pub actors_ready: u32,
+    /// Tokens whose registering command has been applied.
+    pub tokens_ready: u32,
+}
+
+impl DynInfo
+{
+    pub fn ready_actors(&self) -> Vec<ActorId> { (0..self.n_actors as ActorId).filter(|a| self.actors_ready & (1 << a) != 0).collect() }
+    pub fn ready_tokens(&self) -> Vec<TokenId> { (0..self.n_tokens as TokenId).filter(|t| self.tokens_ready & (1 << t) != 0).collect() }
 }
 
 pub type AlphabetFn = Arc<dyn Fn(&DynInfo) -> Vec<Op> + Send + Sync>;
@@ -154,6 +165,10 @@ pub struct Ctx
     /// Materialised scripts, for replay artefacts.
     pub scripts: Vec<(RunId, Vec<Op>)>,
     pub tops: Vec<Op>,
+    pub actors_ready: u32,
+    pub tokens_ready: u32,
+    /// Creations waiting for their marker: (cmd, new actor, token).
+    pub pending_creations: Vec<(CmdId, Option<ActorId>, Option<TokenId>)>,
     /// Harness self-check failures (machinery errors, never verdicts).
     pub machinery_error: Option<String>,
 }
@@ -206,6 +221,9 @@ impl Ctx
             total_runs: 0,
             scripts: Vec::new(),
             tops: Vec::new(),
+            actors_ready: 0,
+            tokens_ready: 0,
+            pending_creations: Vec::new(),
             machinery_error: None,
         }
     }
@@ -226,6 +244,8 @@ impl Ctx
             budget_left: self.budget_left,
             at,
             runs_so_far: self.total_runs,
+            actors_ready: self.actors_ready,
+            tokens_ready: self.tokens_ready,
         }
     }
 
